@@ -1249,12 +1249,56 @@ def _fast_coq_cases(ctx):
 def run(ctx):
     _fast_coq_cases(ctx)
     ctx.prove(PROOF_FILES, allowed_axioms=(), trusted_base=TRUSTED)
-    counts = [ctx.n(150, 2500), ctx.n(90, 1200), ctx.n(90, 1200), ctx.n(70, 900), ctx.n(100, 1500)]
-    stats = []
+    counts = [ctx.n(80, 1000), ctx.n(50, 500), ctx.n(50, 500), ctx.n(40, 400), ctx.n(50, 500)]
+    # The families are independent; run them side by side (most of the time is spent waiting for coqc and for
+    # the worker processes).  Each family draws from its own generator derived from the run's seed, so the
+    # inputs do not depend on thread scheduling.
+    import dataclasses
+    import json as _json
+    from concurrent.futures import ThreadPoolExecutor
+    from hsverif.family import load_corpus, run_impl
+
+    # 1. generate every family's inputs (own generator per family, derived from the run's seed) and run the
+    #    implementation on them in worker processes, from the main thread.
+    plans = []
     for fam, n in zip(FAMILIES, counts):
-        st = run_family(ctx, fam, n)
-        ctx.log(f"family {fam.name}: cases={st['cases']} mismatches={st['mismatches']} oracle_failures={st['oracle_failures']} known={st['known']}")
-        stats.append(st)
+        own = random.Random(f"{ctx.seed}/{ctx.tier}/{fam.name}")
+        cases = [fam.gen(own) for _ in range(n)]
+        corpus = load_corpus(ctx.pid, fam.name)
+        results = run_impl(fam, corpus + cases)
+        plans.append((fam, n, own, cases, corpus, results))
+    ctx.log("implementation runs done")
+
+    # 2. encode / compare inside Coq / evaluate the oracle, the families side by side (threads only wait for coqc).
+    def one(plan):
+        fam, n, own, cases, corpus, results = plan
+        memo = {_json.dumps(c, sort_keys=True): r for c, r in zip(corpus + cases, results)}
+        queue = list(cases)
+
+        def gen(_rng):
+            return queue.pop(0) if queue else fam.gen(own)
+
+        def impl(c):
+            r = memo.get(_json.dumps(c, sort_keys=True))
+            if r is None:
+                # only reached by the search after a correspondence break: run it in a fresh process
+                # (signal-based watchdogs need a main thread; forking from a thread can deadlock)
+                import multiprocessing
+                from concurrent.futures import ProcessPoolExecutor
+                with ProcessPoolExecutor(max_workers=1, mp_context=multiprocessing.get_context("spawn")) as px:
+                    return px.submit(fam.impl, c).result(timeout=120)
+            if "exc" in r:
+                raise RuntimeError(r["exc"])
+            return r["ok"]
+
+        fam2 = dataclasses.replace(fam, gen=gen, impl=impl, parallel=False)
+        st = run_family(ctx, fam2, n)
+        ctx.log(f"family {fam.name}: cases={st['cases']} mismatches={st['mismatches']} "
+                f"oracle_failures={st['oracle_failures']} known={st['known']}")
+        return st
+
+    with ThreadPoolExecutor(max_workers=len(FAMILIES)) as ex:
+        stats = list(ex.map(one, plans))
     merge_stats(ctx, stats, "random structured op sequences; non-trivial = contains an eviction; distinct by JSON of the input")
     ctx.finish_obligations()
 
